@@ -700,6 +700,12 @@ func (d *dgen) fnStrconv(idx int) *gfunc {
 	b.l("\tv3, v4 := strconv.Atoi(%s)", d.str(numeralPool[d.r.Intn(len(numeralPool))]))
 	b.l("\tif v4 == nil {\n\t\tv2 = v2 + \"|ok\" + strconv.Itoa(v3 + p1)\n\t}")
 	if d.r.Intn(2) == 0 {
+		// two error values alive at once, printed after both calls were made
+		d.note("native:fmt.Sprintf")
+		d.note("strconv:errors-held")
+		b.l("\tv2 = v2 + fmt.Sprintf(%s, v1, v4)", d.str([]string{"|%v|%v", "|%s;%v", "|%v", "|%[2]v|%[1]v", "|%q|%T"}[d.r.Intn(5)]))
+	}
+	if d.r.Intn(2) == 0 {
 		b.l("\tv5, v6 := strconv.Atoi(strconv.Itoa(p1))")
 		b.l("\tif nil != v6 {\n\t\treturn \"roundtrip failed\"\n\t}")
 		b.l("\tif v5 != p1 {\n\t\treturn \"roundtrip differs\"\n\t}")
@@ -742,6 +748,112 @@ func (d *dgen) program() []*gfunc {
 	}
 	if len(d.pre) > 0 {
 		fs[0].src = strings.Join(d.pre, "\n") + "\n\n" + fs[0].src
+	}
+	return fs
+}
+
+// ---------------------------------------------------------------- native sweeps
+// Every run starts its data programs with one program per group of natives whose functions do nothing but call the
+// native on their parameters; the argument tuples are drawn from the pools of border values, so each native sees
+// a few dozen border combinations in every run whatever the PRNG does to the other programs.
+
+const numSweeps = 7
+
+func (d *dgen) sweepProgram(k int) []*gfunc {
+	d.pre, d.nconst = nil, 0
+	d.note("data:native-sweep")
+	ps := func(n string) gvar { return gvar{name: n, ty: gStr} }
+	pi := func(n string) gvar { return gvar{name: n, ty: gInt} }
+	pb := func(n string) gvar { return gvar{name: n, ty: gBool} }
+	// a haystack and a needle that is, half of the time, a piece of it (a prefix, a suffix, something inside, all of
+	// it, nothing) - cut at any byte, also inside a multi-byte character
+	var lastHay string
+	hay := func() argval {
+		lastHay = hayPool[d.r.Intn(len(hayPool))]
+		return aS(lastHay)
+	}
+	needle := func() argval {
+		if h := lastHay; d.r.Intn(2) == 0 {
+			i := d.r.Intn(len(h) + 1)
+			j := i + d.r.Intn(len(h)-i+1)
+			switch d.r.Intn(4) {
+			case 0:
+				return aS(h[:j])
+			case 1:
+				return aS(h[i:])
+			default:
+				return aS(h[i:j])
+			}
+		}
+		return aS(needlePool[d.r.Intn(len(needlePool))])
+	}
+	ncount := 0
+	count := func() argval {
+		ncount++
+		return aI(countPool[ncount%len(countPool)])
+	}
+	format := func() argval { return aS(formats[d.r.Intn(len(formats))]) }
+	sint := func() argval { return aI(sprintfInts[d.r.Intn(len(sprintfInts))]) }
+	sstr := func() argval { return aS(sprintfStrs[d.r.Intn(len(sprintfStrs))]) }
+	var fs []*gfunc
+	add := func(res gty, params []gvar, ret string, n int, gens ...func() argval) {
+		f := &gfunc{name: fmt.Sprintf("qf%d", len(fs)), res: res, params: params}
+		var sig []string
+		for _, p := range params {
+			sig = append(sig, p.name+" "+p.ty.String())
+		}
+		f.src = fmt.Sprintf("func %s(%s) %s {\n\treturn %s\n}\n", f.name, strings.Join(sig, ", "), res.String(), ret)
+		for i := 0; i < n; i++ {
+			var t []argval
+			for _, g := range gens {
+				t = append(t, g())
+			}
+			f.tuples = append(f.tuples, t)
+		}
+		fs = append(fs, f)
+	}
+	switch k % numSweeps {
+	case 0:
+		d.note("native:strings.Replace")
+		add(gStr, []gvar{ps("p0"), ps("p1"), ps("p2"), pi("p3")}, "strings.Replace(p0, p1, p2, p3)", 40, hay, needle, needle, count)
+	case 1:
+		d.note("native:strings.ReplaceAll")
+		add(gStr, []gvar{ps("p0"), ps("p1"), ps("p2")}, "strings.ReplaceAll(p0, p1, p2)", 30, hay, needle, needle)
+	case 2:
+		d.note("native:strings.TrimPrefix")
+		d.note("native:strings.TrimSuffix")
+		add(gStr, []gvar{ps("p0"), ps("p1")}, "strings.TrimPrefix(p0, p1)", 24, hay, needle)
+		add(gStr, []gvar{ps("p0"), ps("p1")}, "strings.TrimSuffix(p0, p1)", 24, hay, needle)
+	case 3:
+		d.note("native:strings.HasPrefix")
+		d.note("native:strings.HasSuffix")
+		d.note("native:strings.Contains")
+		add(gBool, []gvar{ps("p0"), ps("p1")}, "strings.HasPrefix(p0, p1)", 20, hay, needle)
+		add(gBool, []gvar{ps("p0"), ps("p1")}, "strings.HasSuffix(p0, p1)", 20, hay, needle)
+		add(gBool, []gvar{ps("p0"), ps("p1")}, "strings.Contains(p0, p1)", 20, hay, needle)
+	case 4:
+		d.note("native:strconv.Atoi")
+		f := &gfunc{name: "qf0", res: gStr, params: []gvar{ps("p0")}}
+		f.src = "func qf0(p0 string) string {\n\tv0, v1 := strconv.Atoi(p0)\n\tif v1 != nil {\n\t\treturn strconv.Itoa(v0) + \"!\"\n\t}\n\treturn strconv.Itoa(v0)\n}\n"
+		for _, s := range numeralPool {
+			f.tuples = append(f.tuples, []argval{aS(s)})
+		}
+		fs = append(fs, f)
+	case 5:
+		d.note("native:strconv.Itoa")
+		add(gStr, []gvar{pi("p0")}, "strconv.Itoa(p0)", 16, sint)
+		f := fs[0]
+		for _, v := range []int64{math.MaxInt64, math.MinInt64, 0, -1, 10, -10, 1 << 32, -(1 << 31)} {
+			f.tuples = append(f.tuples, []argval{aI(v)})
+		}
+	default:
+		d.note("native:fmt.Sprintf")
+		add(gStr, []gvar{ps("p0")}, "fmt.Sprintf(p0)", 24, format)
+		add(gStr, []gvar{ps("p0"), ps("p1")}, "fmt.Sprintf(p0, p1)", 20, format, sstr)
+		add(gStr, []gvar{ps("p0"), pi("p1")}, "fmt.Sprintf(p0, p1)", 20, format, sint)
+		add(gStr, []gvar{ps("p0"), pb("p1")}, "fmt.Sprintf(p0, p1)", 10, format, func() argval { return aB(d.r.Intn(2) == 0) })
+		add(gStr, []gvar{ps("p0"), ps("p1"), pi("p2")}, "fmt.Sprintf(p0, p1, p2)", 20, format, sstr, sint)
+		add(gStr, []gvar{ps("p0"), pi("p1"), ps("p2"), pi("p3")}, "fmt.Sprintf(p0, p1, p2, p3)", 16, format, sint, sstr, sint)
 	}
 	return fs
 }
